@@ -7,7 +7,7 @@ structure DecGoodOK (o : Opts) : Prop where
   atomInline : ∀ a : Bytes, a.length ≤ 255 → AtomOK o (o.dmap a)
   atomCached : ∀ id a, o.atomOf id = some a → AtomOK o (o.dmap a)
   err : ∀ id e, o.errOf id = some e → LeafGood o .error e
-  reg : ∀ nm t, o.reg nm = some t → DescOK o t ∧ t.composite = false
+  reg : ∀ nm t, o.reg nm = some t → DescOK o t ∧ t.closed = false
 
 theorem numCanon_idem (p : Num) (bs : Bytes) : numCanon p (numCanon p bs) = numCanon p bs := by
   unfold numCanon
@@ -28,13 +28,13 @@ theorem tagTy_flat (b : UInt8) (t : Ty) (h : tagTy b = some t) : (t.leafTag.isSo
   have : ∀ e ∈ tagTable, (e.2.leafTag.isSome = true ∨ e.2 = .any) := by decide
   exact this e hm
 
-theorem flat_DescOK (o : Opts) (t : Ty) (h : t.leafTag.isSome = true ∨ t = .any) : DescOK o t ∧ t.composite = false := by
+theorem flat_DescOK (o : Opts) (t : Ty) (h : t.leafTag.isSome = true ∨ t = .any) : DescOK o t ∧ t.closed = false := by
   rcases h with h | rfl
-  · cases t <;> simp [Ty.leafTag] at h <;> simp [DescOK, Ty.composite]
-  · simp [DescOK, Ty.composite]
+  · cases t <;> simp [Ty.leafTag] at h <;> simp [DescOK, Ty.closed]
+  · simp [DescOK, Ty.closed]
 
 theorem getReg_DescOK (o : Opts) (hd : DecGoodOK o) (bs : Bytes) (t : Ty) (r : Bytes) (h : getReg o bs = .ok (t, r)) :
-    DescOK o t ∧ t.composite = false := by
+    DescOK o t ∧ t.closed = false := by
   unfold getReg at h
   split at h; · simp at h
   split at h
@@ -52,7 +52,7 @@ theorem getReg_DescOK (o : Opts) (hd : DecGoodOK o) (bs : Bytes) (t : Ty) (r : B
     · simp at h
 
 theorem decTy_DescOK (o : Opts) (hd : DecGoodOK o) : ∀ (f : Nat) (bs : Bytes) (t : Ty) (r : Bytes),
-    decTy o f bs = .ok (t, r) → DescOK o t ∧ (t.composite = true → r = [])
+    decTy o f bs = .ok (t, r) → DescOK o t ∧ (t.closed = true → r = [])
   | 0, bs, t, r, h => by simp [decTy] at h
   | f+1, [], t, r, h => by simp [decTy] at h
   | f+1, b :: r0, t, r, h => by
@@ -70,12 +70,7 @@ theorem decTy_DescOK (o : Opts) (hd : DecGoodOK o) : ∀ (f : Nat) (bs : Bytes) 
           obtain ⟨dv, _⟩ := decTy_DescOK o hd f _ _ _ hv
           refine ⟨?_, fun _ => rfl⟩
           simp only [DescOK]
-          refine ⟨?_, by simpa using hcmp, dk, dv⟩
-          cases hc : k.composite with
-          | false => rfl
-          | true =>
-            have := ck hc; subst this
-            cases f <;> simp [decTy] at hv
+          exact ⟨by simpa using hcmp, dk, dv⟩
         · simp at h
         · simp at h
       · simp at h
@@ -96,12 +91,12 @@ theorem decTy_DescOK (o : Opts) (hd : DecGoodOK o) : ∀ (f : Nat) (bs : Bytes) 
           split at h
           · rename_i t' f' ht
             split at h; · simp at h
-            split at h; · simp at h
             rename_i hov
             simp at h; obtain ⟨rfl, rfl⟩ := h
-            refine ⟨?_, fun _ => rfl⟩
+            obtain ⟨d1, c1⟩ := decTy_DescOK o hd f _ _ _ ht
+            refine ⟨?_, fun hc => c1 (by simpa [Ty.closed] using hc)⟩
             simp only [DescOK]
-            exact ⟨hn, hov, (decTy_DescOK o hd f _ _ _ ht).1⟩
+            exact ⟨hn, hov, d1⟩
           · simp at h
           · simp at h
         · split at h
@@ -132,6 +127,7 @@ theorem getDecoder_DescOK (o : Opts) (hd : DecGoodOK o) (dt : Bool) (bs : Bytes)
         split at h; · simp at h
         split at h
         · rename_i t' f' ht
+          split at h; · simp at h
           simp at h; obtain ⟨rfl, rfl, rfl⟩ := h
           exact (decTy_DescOK o hd _ _ _ _ ht).1
         · simp at h
